@@ -49,6 +49,7 @@ class SendModel(object):
         self.step_no = 0
         self.inputs = []
         self.llist = self.scan_local_list(cfg)
+        self.lbools = self.scan_local_bools(cfg)
 
     @staticmethod
     def is_queue_snapshot(e):
@@ -62,6 +63,17 @@ class SendModel(object):
         if isinstance(e, ast.Call) and isinstance(e.func, ast.Attribute) and e.func.attr == "copy" and is_q(e.func.value) and not e.args:
             return True
         return False
+
+    def scan_local_bools(self, cfg):
+        """local flag variables (assigned a constant, bool(queue), not queue, ...): one Bool per frame each"""
+        names = set()
+        for l, n in cfg.nodes.items():
+            st = n.ast
+            if n.kind == "stmt" and isinstance(st, ast.Assign) and len(st.targets) == 1 and isinstance(st.targets[0], ast.Name):
+                nm = st.targets[0].id
+                if nm != "data" and not self.is_queue_snapshot(st.value):
+                    names.add(nm)
+        return sorted(names)
 
     def scan_local_list(self, cfg):
         """name of the (one) local variable that holds a snapshot of the send queue, or None"""
@@ -97,6 +109,8 @@ class SendModel(object):
                 v["pc%d_%d" % (t, d)] = bv(self.cfg.entry if d == 0 else 0, PCW)
                 v["data%d_%d" % (t, d)] = bv(0, W)
                 v["msg%d_%d" % (t, d)] = bv(self.main_ids[t][0] if d == 0 else 0, W)
+                for nm in self.lbools:
+                    v["lb_%s_%d_%d" % (nm, t, d)] = z3.BoolVal(False)
                 if self.llist is not None:
                     for i in range(self.Q):
                         v["ll%dx%d_%d" % (i, t, d)] = bv(0, W)   # local snapshot of the queue
@@ -165,6 +179,9 @@ class SendModel(object):
         if isinstance(e, ast.Name):
             if e.id == "data":
                 return self.loc(Wk, t, "data")
+            if e.id in self.lbools:
+                d2 = Wk.v["depth%d" % t] == 2
+                return z3.If(d2, Wk.v["lb_%s_%d_1" % (e.id, t)], Wk.v["lb_%s_%d_0" % (e.id, t)])
             raise Unsupported("engine B: name %s" % e.id)
         if isinstance(e, ast.Attribute):
             p = self.path(e)
@@ -175,6 +192,10 @@ class SendModel(object):
             p = self.path(e.func)
             if p == "brine.dump":
                 return self.loc(Wk, t, "msg")
+            if p == "bool" and len(e.args) == 1:
+                return self.truth_of(e.args[0], Wk, S, t)
+            if p == "len" and len(e.args) == 1 and isinstance(e.args[0], ast.Attribute) and self.path(e.args[0]) == "self._send_queue":
+                return Wk.v["qlen"]
             if p == "self._send_queue.append":
                 x = self.ev(e.args[0], Wk, S, t)
                 self.q_push(Wk, x)
@@ -198,6 +219,16 @@ class SendModel(object):
                 Wk.set("lock", False)
                 return None
             raise Unsupported("engine B: call %s" % p)
+        if isinstance(e, ast.Compare) and len(e.ops) == 1:
+            l, r = self.ev(e.left, Wk, S, t), self.ev(e.comparators[0], Wk, S, t)
+            if z3.is_bv(l) and z3.is_bv(r):
+                tbl = {ast.Eq: lambda: l == r, ast.NotEq: lambda: l != r, ast.Gt: lambda: z3.UGT(l, r), ast.GtE: lambda: z3.UGE(l, r),
+                       ast.Lt: lambda: z3.ULT(l, r), ast.LtE: lambda: z3.ULE(l, r)}
+                if type(e.ops[0]) in tbl:
+                    return tbl[type(e.ops[0])]()
+        if isinstance(e, ast.BoolOp):
+            vals = [self.truth_of(x, Wk, S, t) for x in e.values]
+            return z3.And(*vals) if isinstance(e.op, ast.And) else z3.Or(*vals)
         raise Unsupported("engine B: expression %s" % type(e).__name__)
 
     def truth(self, v):
@@ -329,6 +360,11 @@ class SendModel(object):
                 for i in range(self.Q):
                     Wk.v["q%d" % i] = bv(0, W)
                 Wk.v["qlen"] = bv(0, W)
+            elif isinstance(s, ast.Assign) and len(s.targets) == 1 and isinstance(s.targets[0], ast.Name) and s.targets[0].id in self.lbools:
+                val = self.truth_of(s.value, Wk, S, t)
+                if val is None:
+                    raise Unsupported("engine B: value of the flag %s at line %d" % (s.targets[0].id, node.lineno))
+                self.setloc(Wk, S, t, "lb_%s_" % s.targets[0].id, val)
             elif isinstance(s, ast.Assign):
                 if len(s.targets) != 1 or not isinstance(s.targets[0], ast.Name) or s.targets[0].id != "data":
                     raise Unsupported("engine B: assignment target at line %d" % node.lineno)
